@@ -205,8 +205,13 @@ def make_case(rng, method, n, order, complex_valued=False):
                     break
         if len(xs) == size:
             shape = [size] if arr else []
-            if arr and size == 4 and rng.random() < 0.3:
+            layout = 'C'
+            if arr and size == 4 and rng.random() < 0.5:
                 shape = [2, 2]
+            if arr and size == 3 and rng.random() < 0.3:
+                shape = [1, 3] if rng.random() < 0.5 else [3, 1]
+            if len(shape) == 2:
+                layout = str(rng.choice(['C', 'F', 'F', 'strided']))      # memory layout of the same logical matrix
             if stationary:
                 # evaluated at the stationary point itself: the exact first derivative is 0 (and a relative error
                 # estimate is worthless there)
@@ -222,7 +227,7 @@ def make_case(rng, method, n, order, complex_valued=False):
                 spec = dict(kind='scalar', value=float(10.0 ** rng.uniform(-5, -2.5)))
             u = rng.random()
             x_form = None if u < 0.8 else str(rng.choice(['list', 'tuple'] if shape else ['zero_d', 'np_scalar']))
-            return dict(tree=tree, x=xs, shape=shape, method=method, n=n, order=order, x_form=x_form, fo_later=bool(rng.random() < 0.25),
+            return dict(tree=tree, x=xs, shape=shape, layout=layout, method=method, n=n, order=order, x_form=x_form, fo_later=bool(rng.random() < 0.25),
                         step=spec, cplx=bool(complex_valued), stationary=bool(stationary),
                         int_x=bool(int_x))
     return None
@@ -327,7 +332,18 @@ def run_case(case, ctx, full_output=True):
         if same:
             x = xi
             ctx.count('integer_typed_x_cases')
+    lay = case.get('layout', 'C')
+    if isinstance(x, np.ndarray) and x.ndim >= 2 and lay != 'C':
+        if lay == 'F':
+            x = np.asfortranarray(x)
+        else:
+            big = np.zeros(x.shape[:-1] + (2 * x.shape[-1],), dtype=x.dtype)
+            big[..., ::2] = x
+            x = big[..., ::2]
+        ctx.count('x_memory_layout:' + lay)
     form = case.get('x_form')
+    if lay != 'C':
+        form = None
     if form and not (case.get('int_x') and not isinstance(x, (float, np.ndarray))):
         # the same point in another legal container: list / tuple (nested for matrices), 0-d array, numpy scalar
         if form in ('list', 'tuple') and shape:
